@@ -23,7 +23,7 @@ PROP = dict(
         rule="order: 0-40 participants of four Go types (Priority+Order, Order, neither, Priority-without-Order), class weights and key "
              "pool drawn per case (all of {min int64,-3..3,max int64} / ties only / extremes), 3/8 of the cases longer than 12; "
              "orderstart: real App.Run with 0-8 (1/5: 0-20) loaders, post-processors (1/3 InstantiationAware) and runners of all classes and "
-             "one probe component; in 2/3 of the processor lists each processor is LazyInit (marker z, definition.LazyInitComponent embedded) with probability 1/3 or 1/2, in all three order classes and mixed with eager ones (label lazy-ahead-of-eager: some lazy processor must by the contract precede an eager one); with injected stops (loader error / rejected config, processor error or nil answer before/after "
+             "one probe component; in 2/3 of the processor lists each processor is LazyInit (marker z, definition.LazyInitComponent embedded) with probability 1/3 or 1/2, in all three order classes and mixed with eager ones (label lazy-ahead-of-eager: some lazy processor must by the contract precede an eager one); in 1/3 of the processor lists with two or more processors one processor DECORATES (marker w: its PostProcessAfterInitialization answers every post-processor component created after it with a decorator embedding only the container post-processor interface, so the instance in the chain has neither Order() nor Priority(); the decorator forwards the callbacks, the contract is judged by the registered processor's class and Order), half of those lists arranged as decorator (priority-ordered, minimal Order) < eager ordered processor < LazyInit ordered processor (label decorated-ahead-of-undecorated); with injected stops (loader error / rejected config, processor error or nil answer before/after "
              "initialisation, runner error) only on participants whose position does not depend on tie order; a case is trivial when it "
              "has at most one participant; 3/10 of the orderstart cases (`SC`) put the probe into a circular reference with a second "
              "singleton, make 3/5 of the processors SmartInstantiationAware and impose the P section as registration order "
@@ -38,6 +38,6 @@ PROP = dict(
                      "loaders and direct calls compare the unordered block with identities",
                      "GetEarlyBeanReference callbacks return the component they were given without error (an error there would make the "
                      "other logs depend on which member of the cycle is created first); one early-reference request per `SC` start",
-                     "a LazyInit post-processor is used as registered (never created by the factory); the eager ones are fetched from the factory and, having no injection points, are the registered instances too",
+                     "a LazyInit post-processor is used as registered (never created by the factory); the eager ones are fetched from the factory and, having no injection points, are the registered instances too — unless a decorating processor (marker w) is ahead of them in the sorted raw slice: then the factory's answer is a decorator around the registered instance (modelled by Driver.Order.resolveIn; C12_resolved_processors_invoked_in_order / C12_decorated_processors_keep_position hold for every such answer)",
                      "user post-processors in the starts have no injection points (the known limitation about Priority-ordered processors created early does not interfere)"],
     )
